@@ -470,6 +470,54 @@ var subC18Misc = &fw.Sub{Name: "c18.misc", New: func() fw.Case { return &c18Misc
 					"dump: status %d %q %q; load: status %d %q %q", d.code, fw.Trunc(d.stdout, 100), fw.Trunc(d.stderr, 200), l.code, fw.Trunc(l.stdout, 100), fw.Trunc(l.stderr, 200))
 			}
 		}
+		// a dump of more than 4 KiB whose string constants straddle the loader's buffer boundaries
+		{
+			var sb strings.Builder
+			for i := 0; i < 260; i++ {
+				fmt.Fprintf(&sb, "print \"%s-%d\"\n", strings.Repeat("s", 17+i%23), i)
+			}
+			os.WriteFile(filepath.Join(dir, "big.bcl"), []byte(sb.String()), 0o644)
+			d := runCLI(dir, "", "--bdump=big.bcb", "big.bcl")
+			l := runCLI(dir, "", "--bload", "big.bcb")
+			if d.code != 0 || l.code != 0 || l.stdout != d.stdout {
+				return fw.Failf("--bload reproduces the output of a program whose dump exceeds 4 KiB", "dump status %d, load status %d %q (stdout %d vs %d bytes)", d.code, l.code, fw.Trunc(l.stderr, 200), len(l.stdout), len(d.stdout))
+			}
+		}
+		// BFILE on another file system than the temporary directory, and an unusable TMPDIR
+		if st, err := os.Stat("/dev/shm"); err == nil && st.IsDir() {
+			shm := fmt.Sprintf("/dev/shm/c18-%d.bcb", os.Getpid())
+			d := runCLI(dir, "", "--bdump="+shm, "ok.bcl")
+			_, serr := os.Stat(shm)
+			os.Remove(shm)
+			if d.code != 0 || d.stdout != want.stdout || serr != nil {
+				return fw.Failf("--bdump to a BFILE on another file system works", "status %d %q %q (BFILE: %v)", d.code, fw.Trunc(d.stdout, 200), fw.Trunc(d.stderr, 200), serr)
+			}
+		}
+		{
+			cmd := exec.Command(cliBin(), "--bdump=tmpdir.bcb", "ok.bcl")
+			cmd.Dir = dir
+			cmd.Env = append(os.Environ(), "TMPDIR=/nonexistent-c18")
+			var o, e bytes.Buffer
+			cmd.Stdout, cmd.Stderr = &o, &e
+			rerr := cmd.Run()
+			if rerr != nil || o.String() != want.stdout {
+				return fw.Failf("--bdump does not depend on TMPDIR", "err=%v stdout %q stderr %q", rerr, fw.Trunc(o.String(), 200), fw.Trunc(e.String(), 200))
+			}
+		}
+		// FILE is used as spelled: a file called "-" reached as ./-, and the name shown by -d / stored by --bdump
+		{
+			os.WriteFile(filepath.Join(dir, "-"), []byte("print \"the file named dash\"\n"), 0o644)
+			if r := runCLI(dir, c18Progs["ok"], "./-"); r.code != 0 || r.stdout != "the file named dash\n" {
+				return fw.Failf("bcl ./- runs the FILE named '-' (not standard input)", "status %d %q %q", r.code, fw.Trunc(r.stdout, 200), fw.Trunc(r.stderr, 200))
+			}
+			os.Mkdir(filepath.Join(dir, "sub"), 0o755)
+			for _, spelled := range []string{"./ok.bcl", "sub/../ok.bcl", ".//ok.bcl"} {
+				wantOut, wantCode, _ := expectedFromLibrary(filepath.Join(dir, "ok.bcl"), spelled, refArgs{D: true})
+				if r := runCLI(dir, "", "-d", spelled); r.stdout != wantOut || r.code != wantCode {
+					return fw.Failf("bcl -d "+spelled+" prints what the library prints for a file of that name: "+fw.Trunc(wantOut, 120), "status %d %q", r.code, fw.Trunc(r.stdout, 120))
+				}
+			}
+		}
 		// load from and dump to the same BFILE
 		runCLI(dir, "", "--bdump=same.bcb", "ok.bcl")
 		before, _ := os.ReadFile(filepath.Join(dir, "same.bcb"))
